@@ -500,3 +500,52 @@ def _value_desc(cx, rv):
     if k == "cast":
         return _value_desc(cx, ["use", rv[2]])
     return ("other", set())
+
+
+def bool_cases(cx, op, want, depth=0, _seen=None):
+    """the ways in which the boolean operand `op` of cx.fn evaluates to `want`: a list of fact lists (each list holds the
+    facts that dominate the deciding definition plus the deciding comparison itself), or None when some definition is
+    not a constant, comparison, negation or copy. `a && b`, `a || b`, `!x`, `matches!` and PartialEq calls are followed
+    through the temporaries MIR lowers them to."""
+    fn = cx.fn
+    if op[0] == "k":
+        v = str(op[1]) in ("1", "true")
+        return [[]] if v == want else []
+    if depth > 12 or op[0] not in ("m", "c") or len(op[1]) != 1:
+        return None
+    _seen = _seen or frozenset()
+    loc = op[1][0]
+    if loc in _seen:
+        return None
+    _seen = _seen | {loc}
+    ds = [d for d in fn.defs().get(loc, []) if len(d[2]) == 1]
+    if not ds:
+        return None
+    out = []
+    cmpmap = {"eq": "Eq", "ne": "Ne", "lt": "Lt", "le": "Le", "gt": "Gt", "ge": "Ge"}
+    for (bi, si, pl, rv, ln) in ds:
+        here = list(cx.facts_at(bi))
+        if rv[0] == "use":
+            sub = bool_cases(cx, rv[1], want, depth + 1, _seen)
+            if sub is None:
+                return None
+            out += [here + c for c in sub]
+        elif rv[0] == "un" and rv[1] == "Not":
+            sub = bool_cases(cx, rv[2], not want, depth + 1, _seen)
+            if sub is None:
+                return None
+            out += [here + c for c in sub]
+        elif rv[0] == "bin" and rv[1] in _NEG:
+            o = rv[1] if want else _NEG[rv[1]]
+            out.append(here + [("cmp", o, cx.tags(rv[2]), cx.tags(rv[3]), bi)])
+        elif rv[0] == "call":
+            t = rv[1]
+            last = _short_callee(t).split("::")[-1]
+            if last in cmpmap and len(t["args"]) == 2:
+                o = cmpmap[last] if want else _NEG[cmpmap[last]]
+                out.append(here + [("cmp", o, cx.tags(t["args"][0]), cx.tags(t["args"][1]), bi)])
+            else:
+                return None
+        else:
+            return None
+    return out
